@@ -112,7 +112,7 @@ func TestC33(t *testing.T) {
 
 	rnd := evid.Rand(33)
 	items := execgen.FullCorpus()
-	items = append(items, execgen.Generated(rnd, evid.N(40, 300))...)
+	items = append(items, execgen.Generated(rnd, evid.N(7, 60))...)
 	var mine []execgen.Item
 	for i, it := range items {
 		if i%evid.Shards() == evid.Shard() {
